@@ -50,7 +50,8 @@ THEOREMS = [_T + n for n in [
     # the recording loaded from the notated path, the round trip through select_by_key
     "C10_export_span_of", "C10_export_segment_fields", "C10_export_bbox_decision", "C10_export_bbox_refused_iff",
     "C10_export_spans_segment", "C10_export_spans_bbox", "C10_import_annotation_load_nopath",
-    "C10_import_annotation_load", "C10_roundtrip_label_select",
+    "C10_import_annotation_load", "C10_roundtrip_label_select", "C10_label_roundtrip_cases",
+    "C10_roundtrip_of_label_roundtrip",
 ]]
 LEVEL_TEXT = ("Lean theorems over the model of the five crowsetta modules hold for all rational inputs and all option "
               "records: the expansion factor is applied exactly once on import (onset/te, sample/samplerate, f*te), import "
@@ -658,8 +659,17 @@ def _rt_domain(inp):
     if o.get("tag_fn") is not None or o.get("tag_mapping") is not None:
         return False
     e = inp.get("export_opts") or {}
-    if e.get("seq_label_fn") is not None or e.get("label_fn") is not None or e.get("label_mapping") is not None \
-            or e.get("select_by_key") is not None or e.get("value_only") is not True:
+    if e.get("seq_label_fn") is not None or e.get("label_fn") is not None or e.get("label_mapping") is not None:
+        return False
+    if e.get("select_by_key") is not None:
+        # value-only labels through select_by_key of the importer's key (C10_label_roundtrip_cases, te = 1)
+        if o.get("term_mapping") is not None or o.get("key_mapping") is not None or frac(inp["rec"]["te"]) != 1:
+            return False
+        k = o["term"]["label"] if o.get("term") is not None else (
+            o["key"] if o.get("key") is not None else (o["fallback"] if o.get("fallback") is not None else "crowsetta"))
+        if e["select_by_key"] != k:
+            return False
+    elif e.get("value_only") is not True:
         return False
     empties = o.get("empty_labels") or ["__empty__"]
     if empties != [e.get("empty_label") or "__empty__"]:
@@ -1098,7 +1108,8 @@ def enum_label_to_tags(full=True):
 
 def enum_label_to_tags_falsy():
     """falsy-but-meaningful option values: empty key / fallback / label, an empty `empty_labels`, empty mappings"""
-    for label, empties in [(LAB, None), (LAB, []), ("", []), ("", [""]), ("__empty__", []), ("0", None)]:
+    for label, empties in [(LAB, None), (LAB, []), ("", []), ("", [""]), ("__empty__", []), ("0", None),
+                           (" __empty__ ", None), ("__EMPTY__", None), ("NA ", ["NA"])]:      # near misses of an empty label
         tag_maps = [None, [], [[label, {"many": []}]]]
         term_maps = [None, []]
         key_maps = [None, [], [["other", "kx"]], [[label, ""]]]
@@ -1110,12 +1121,13 @@ def enum_label_to_tags_falsy():
 
 TAG_E = ktag("", "ve")          # a tag whose key is the empty string
 TAG_F = ktag("k1", "")          # a tag whose value is the empty string
+TAG_G = ktag("K1", "upper")     # keys are compared exactly: "K1" is not "k1"
 
 
 def enum_label_from_tags_falsy():
-    for tags in ([], [TAG_F], [TAG_A, TAG_E, TAG_F], [TAG_E, TAG_A]):
+    for tags in ([], [TAG_F], [TAG_A, TAG_E, TAG_F], [TAG_E, TAG_A], [TAG_G, TAG_E, TAG_A]):
         t0 = tags[-1] if tags else TAG_A
-        for sel, idx, mp, vo, sep, el in itertools.product([None, "", "k1"], [None, 0, -1], [None, [], [[t0, ""]]],
+        for sel, idx, mp, vo, sep, el in itertools.product([None, "", "k1", "K1", " k1"], [None, 0, -1], [None, [], [[t0, ""]]],
                                                            [None, True, False], [None, ""], [None, ""]):
             yield {"tags": tags, "opts": {"seq_label_fn": None, "select_by_key": sel, "index": idx, "label_fn": None,
                                           "label_mapping": mp, "value_only": vo, "separator": sep, "empty_label": el}}
@@ -1360,6 +1372,9 @@ def _rt_opts(rng):
     # a small share outside the theorem's domain (compared with the model, not monitored)
     if rng.random() < 0.12:
         eo = rng.choice([{"value_only": False}, {}, {"select_by_key": "crowsetta"}, {"select_by_key": "crowsetta", "value_only": True}])
+    elif rng.random() < 0.12 and not (io and (io.get("term_mapping") or io.get("key_mapping"))):
+        k = (io or {}).get("term", {}).get("label") or (io or {}).get("key") or (io or {}).get("fallback") or "crowsetta"
+        eo = {"select_by_key": k, **rng.choice([{}, {"value_only": False}, {"index": 1}]), **{x: y for x, y in eo.items() if x == "empty_label"}}
     if rng.random() < 0.05:
         io = rng.choice(LABEL_OPTS)
     return io, eo
